@@ -138,7 +138,7 @@ func (h *Hub) RegisterRemoteSKI(ski string) {
 	// locally initiated
 	service.ConnectionStateDetail().SetState(api.ConnectionStateQueued)
 
-	h.hubReader.ServicePairingDetailUpdate(ski, service.ConnectionStateDetail())
+	h.notifyPairingDetail(ski, service.ConnectionStateDetail(), 0)
 
 	h.mdns.RequestMdnsEntries()
 }
@@ -154,7 +154,7 @@ func (h *Hub) UnregisterRemoteSKI(ski string) {
 
 	service.ConnectionStateDetail().SetState(api.ConnectionStateNone)
 
-	h.hubReader.ServicePairingDetailUpdate(ski, service.ConnectionStateDetail())
+	h.notifyPairingDetail(ski, service.ConnectionStateDetail(), 0)
 
 	if existingC := h.connectionForSKI(ski); existingC != nil {
 		existingC.CloseConnection(true, 4500, "User close")
@@ -194,5 +194,5 @@ func (h *Hub) CancelPairingWithSKI(ski string) {
 	service.ConnectionStateDetail().SetState(api.ConnectionStateNone)
 	service.SetTrusted(false)
 
-	h.hubReader.ServicePairingDetailUpdate(ski, service.ConnectionStateDetail())
+	h.notifyPairingDetail(ski, service.ConnectionStateDetail(), 0)
 }
